@@ -169,7 +169,8 @@ NEXT_HOPS = collections.OrderedDict([("10.0.0.1", ("access", "00:00:00:00:00:aa"
                                      ("10.0.0.2", ("access", "00:00:00:00:00:aa")),
                                      ("10.0.1.1", ("core", "00:00:00:00:00:bb")),
                                      ("10.0.0.3", ("access", "00:00:00:00:00:cc"))])
-PREFIXES = [("10.1.0.0", 16), ("10.2.0.0", 16), ("0.0.0.0", 0), ("10.3.0.0", 24)]
+# (two prefixes share their network address and differ in length only)
+PREFIXES = [("10.1.0.0", 16), ("10.1.0.0", 24), ("0.0.0.0", 0), ("10.3.0.0", 24)]
 
 
 def universe():
@@ -416,7 +417,7 @@ def explore(mod, depth, pool=None):
         frontier = nxt
     res["distinct"] = res["states"]
     res["extra"]["max_depth"] = maxd
-    res["samples"] = [dict(history=[["newroute", ["10.1.0.0", 16], "10.0.0.1"], ["newroute", ["10.2.0.0", 16], "10.0.0.1"], ["newneigh", "10.0.0.1"], ["delroute", ["10.1.0.0", 16]]])]
+    res["samples"] = [dict(history=[["newroute", ["10.1.0.0", 16], "10.0.0.1"], ["newroute", ["10.1.0.0", 24], "10.0.0.1"], ["newneigh", "10.0.0.1"], ["delroute", ["10.1.0.0", 16]]])]
     return res
 
 
